@@ -324,3 +324,15 @@ func TestC19_TCPService(t *testing.T) {
 }
 
 var _ = context.Background
+
+// One packet handler serving several UDP sockets at once (as a service with several listeners does): the
+// handler's own state is shared between the Handle loops.
+func TestC19_PacketService(t *testing.T) {
+	gen := func(t *rapid.T) C05Shared {
+		c := genC05Shared(t)
+		c.PerClient = rapid.IntRange(100, 600).Draw(t, "perRace")
+		return c
+	}
+	p := kit.Prop[C05Shared]{ID: "C19", Name: "PacketService", Quick: 12, Thorough: 1500, Gen: gen, Run: runC05Shared}
+	p.Execute(t)
+}
